@@ -422,8 +422,13 @@ func c10(c *Ctx) {
 		kind string
 	}
 	var srcs []prog
+	var corpusInvalid []string
 	for _, l := range c.CorpusLines() {
 		f := strings.Fields(l)
+		if f[0] == "errpos" { // an invalid input for the position clause, every variant
+			corpusInvalid = append(corpusInvalid, unhx(f[len(f)-1]))
+			continue
+		}
 		srcs = append(srcs, prog{unhx(f[len(f)-1]), "corpus"})
 	}
 	if c.Shard == 0 {
@@ -512,6 +517,11 @@ func c10(c *Ctx) {
 		entry int
 	}
 	var jobs []job
+	for _, src := range corpusInvalid {
+		for _, lang := range allLangs {
+			jobs = append(jobs, job{src, lang, 0})
+		}
+	}
 	for i := 0; i < c.N; i++ {
 		r := c.R
 		var src string
